@@ -3,6 +3,7 @@
 -/
 import MocVerif.Lemmas.ST
 import MocVerif.Lemmas.Merge2D
+import MocVerif.Lemmas.FlatNormal
 
 namespace Moc.C10
 
@@ -69,6 +70,61 @@ theorem flat_algebra_sem (op : Merge2D.Op) (a b : FlatST) (ha : Merge2D.InOk 0 a
 theorem flat_algebra_valid (op : Merge2D.Op) (a b : FlatST) (ha : Merge2D.InOk 0 a) (hb : Merge2D.InOk 0 b) :
     validFlatB (Merge2D.toST (Merge2D.merge2 op a b)) = true :=
   Merge2D.validFlatB_of_VF _ 0 none (Merge2D.merge2_spec op a b ha hb).1
+
+/-- **The valid flat form is a normal form**: two valid flat coverages covering the same (instant, position)
+    pairs are EQUAL as lists of entries — so the entries returned by the algebra are determined by the point
+    sets of the operands. -/
+theorem flat_normal_form (a b : FlatST) (ha : Merge2D.VF Canon 0 none a) (hb : Merge2D.VF Canon 0 none b)
+    (h : ∀ t s, Merge2D.memFlat t s a ↔ Merge2D.memFlat t s b) : a = b :=
+  Merge2D.VF.ext a b 0 none ha hb h
+
+/-- Consequences, as equalities of the computed entries: union and intersection are commutative … -/
+theorem flat_union_comm (a b : FlatST) (ha : Merge2D.InOk 0 a) (hb : Merge2D.InOk 0 b) :
+    Merge2D.merge2 .union a b = Merge2D.merge2 .union b a := by
+  have x := Merge2D.merge2_spec .union a b ha hb
+  have y := Merge2D.merge2_spec .union b a hb ha
+  refine Merge2D.VF.ext _ _ 0 none x.1 y.1 (fun t s => ?_)
+  rw [x.2, y.2]
+  simp only [Merge2D.Op.sem]
+  exact Or.comm
+
+theorem flat_inter_comm (a b : FlatST) (ha : Merge2D.InOk 0 a) (hb : Merge2D.InOk 0 b) :
+    Merge2D.merge2 .inter a b = Merge2D.merge2 .inter b a := by
+  have x := Merge2D.merge2_spec .inter a b ha hb
+  have y := Merge2D.merge2_spec .inter b a hb ha
+  refine Merge2D.VF.ext _ _ 0 none x.1 y.1 (fun t s => ?_)
+  rw [x.2, y.2]
+  simp only [Merge2D.Op.sem]
+  exact And.comm
+
+/-- … the union is associative (the intermediate results are valid, hence well-formed operands) … -/
+theorem flat_union_assoc (a b c : FlatST) (ha : Merge2D.InOk 0 a) (hb : Merge2D.InOk 0 b) (hc : Merge2D.InOk 0 c) :
+    Merge2D.merge2 .union (Merge2D.merge2 .union a b) c = Merge2D.merge2 .union a (Merge2D.merge2 .union b c) := by
+  have ab := Merge2D.merge2_spec .union a b ha hb
+  have bc := Merge2D.merge2_spec .union b c hb hc
+  have x := Merge2D.merge2_spec .union _ c (Merge2D.InOk_of_VF _ 0 none ab.1) hc
+  have y := Merge2D.merge2_spec .union a _ ha (Merge2D.InOk_of_VF _ 0 none bc.1)
+  refine Merge2D.VF.ext _ _ 0 none x.1 y.1 (fun t s => ?_)
+  rw [x.2, y.2, ab.2, bc.2]
+  simp only [Merge2D.Op.sem]
+  exact or_assoc
+
+/-- … and a valid coverage united or intersected with itself, or deprived of nothing, is returned unchanged. -/
+theorem flat_idempotent (a : FlatST) (ha : Merge2D.VF Canon 0 none a) :
+    Merge2D.merge2 .union a a = a ∧ Merge2D.merge2 .inter a a = a ∧ Merge2D.merge2 .diff a [] = a := by
+  have hi := Merge2D.InOk_of_VF a 0 none ha
+  have u := Merge2D.merge2_spec .union a a hi hi
+  have i := Merge2D.merge2_spec .inter a a hi hi
+  have d := Merge2D.merge2_spec .diff a [] hi trivial
+  refine ⟨Merge2D.VF.ext _ _ 0 none u.1 ha (fun t s => ?_), Merge2D.VF.ext _ _ 0 none i.1 ha (fun t s => ?_),
+    Merge2D.VF.ext _ _ 0 none d.1 ha (fun t s => ?_)⟩
+  · rw [u.2]; simp [Merge2D.Op.sem]
+  · rw [i.2]; simp [Merge2D.Op.sem]
+  · rw [d.2]
+    simp only [Merge2D.Op.sem]
+    constructor
+    · exact fun h => h.1
+    · intro h; exact ⟨h, fun ⟨e, he, _⟩ => by cases he⟩
 
 example : Merge2D.InOk 0 [((0, 5), [(0, 2)]), ((5, 10), [(4, 6)])] := by
   simp [Merge2D.InOk, Canon, CanonFrom]
